@@ -368,7 +368,8 @@ def sinks(rep, prog, always, srcs, tag):
     # SEAL: ephemeral key pair
     sealers = prog.by_path.get("classic::crypto_box::crypto_box_seal", []) + cm.find_method(prog, "dryocbox::DryocBox", "seal")
     rep.floor("sealing functions" + tag, len(sealers), 2)
-    for f in sealers:
+    from ..inline import inline as _inl2
+    for f in [_inl2(prog, f_) for f_ in sealers]:      # builders taking closures / private helpers folded in
         kp = [c for c in f.calls() if any(t.key in always for t in prog.callee_fns(c)) and "keypair" in c.rpath]
         if not kp:
             rep.violation("SEAL", f.path + tag, "no call to a randomised key-pair generator", loc=f.loc())
